@@ -198,6 +198,19 @@ long double require_truthful(Ctx &c, const std::string &what, const Csr<V> &A, c
     return rho;
 }
 
+// Triage note (thorough tier, seed 2, replay/C13/bicgstab-zero-rho-model-case.case): "Zero rho in BiCGStab" also occurs on model inputs. In that case
+// <r, r_shadow> decays to rounding noise (|rho| ~ 1e-22 = a few ulps of 2^-74, i.e. 1e-17 |r||r_shadow|) while |r| stagnates at 5e-8 |f|; ten iterations later the
+// noise happens to be exactly 0 and the solver throws.  The static_matrix twin of the same system shows the same decay (rho 4e-17 at relres 1e-8) and merely reaches
+// the tolerance first, and with 16 threads (another summation order) the Eigen run converges too: a genuine Lanczos breakdown of the method, reported cleanly by an
+// exception.  C13 asks for a truthful residual of a RETURNED solution, so the exception is accepted (labelled) for every input.
+inline vf::PropFn tolerate_breakdown(void (*fn)(Tape &, Ctx &)) {
+    return [fn](Tape &t, Ctx &c) {
+        try { fn(t, c); }
+        catch (const vf::Fail &) { throw; }
+        catch (const std::runtime_error &e) { if (std::string(e.what()).find("in BiCGStab") != std::string::npos) { c.label("breakdown-exception"); return; } throw; }
+    };
+}
+
 inline std::string size_bucket(ptrdiff_t n) { return n <= 8 ? "n<=8" : n <= 40 ? "n<=40" : n <= 150 ? "n<=150" : n <= 600 ? "n<=600" : "n>600"; }
 
 } // namespace c13
